@@ -495,7 +495,8 @@ class C05(Prop):
         self._tier = tier
         cases = gen_cases(rng, 6, 8) if tier == "quick" else gen_cases(rng, 90, 12)
         budget = 240 if tier == "quick" else 1500
-        self.prefetch(cases, budget)
+        from ..core import corpus_cases
+        self.prefetch(corpus_cases(self.pid) + cases, budget)
         return cases
 
     def search_cases(self, rng):
